@@ -44,6 +44,8 @@ SCHEDS = [
     {"policy": "pct", "d": 2, "horizon": 3000, "preempt": "line"},
     {"policy": "rr", "q": 3, "preempt": "line"},
     {"policy": "random", "p": 0.2, "preempt": "sync"},
+    {"policy": "random", "p": 0.5, "preempt": "sync"},
+    {"policy": "pct", "d": 2, "horizon": 150, "preempt": "sync"},
 ]
 LENS = [0, 0, 1, 2, 11, 243, 244, 245, 255, 487, 488, 489, 499, 732, 976, 1220, 2440]
 MASKS = [0x01, 0x80, 0xFF, 0x40]
@@ -103,6 +105,10 @@ def gen_plan(rng, tier, index):
         plan["inbound"] = [msg(True) + [rng.choice([plan["device"], plan["device"], 0x1234 & 0x7FFF])]
                            for _ in range(rng.choice([0, 1, 2, 3, 4]))]
         plan["interleave_seed"] = rng.getrandbits(32)
+        if rng.random() < 0.3:
+            # one block written by the endpoint is altered on the line (a data or checksum byte): k-th block, offset from
+            # the end of the block, mask
+            plan["out_corrupt"] = [rng.choice([0, 0, 1, 2, 3, 5]), rng.choice([1, 2, 3, 10]), rng.choice(MASKS)]
         if tier == "thorough" and rng.random() < 0.004:
             plan["outbound"] = [[0, 244 * 32767 - rng.choice([0, 1, 243]), 7, 3, True, rng.getrandbits(32)]]
             plan["inbound"] = []
@@ -216,6 +222,23 @@ def run(sim, plan):
         return
 
     # ------------------------------------------------------------------------------------------ message runs
+    oc = plan.get("out_corrupt")
+    hit = {"n": 0, "system": None}
+    if oc:
+        def corrupt_write(src, data):
+            if src == "SIMA" and len(data) >= 13 and data[0] + 3 == len(data):
+                hit["n"] += 1
+                if hit["n"] - 1 == oc[0]:
+                    out = bytearray(data)
+                    pos = max(11, len(out) - oc[1])      # header bytes stay intact: the block can be attributed
+                    out[pos] ^= oc[2]
+                    hit["system"] = int.from_bytes(data[7:11], "big")
+                    sim.fault("byte_corrupted")
+                    sim.probe("outbound_block_corrupted")
+                    return bytes(out)
+            return data
+
+        line.corrupt_write = corrupt_write
     # phase A: the endpoint sends (2-3 threads), the reference peer receives and checks every block
     threads = {}
     for m in plan["outbound"]:
@@ -275,6 +298,8 @@ def run(sim, plan):
     per_sys = {}
     order = []
     for blk, ok, raw, t in peer.rx_blocks:
+        if blk is not None and not ok and blk.system == hit["system"]:
+            continue        # the block that was altered on the line
         if blk is None or not ok:
             sim.violation("C16.R1", f"endpoint sent a block with a wrong checksum or shape: {raw[:16].hex()}...",
                           sig="C16.R1|bad-checksum-sent")
@@ -288,6 +313,15 @@ def run(sim, plan):
     for e in sent:
         blks = per_sys.get(e["system"], [])
         desc = f"message #{e['system']:#x} S{e['s']}F{e['f']} with {len(e['body'])} body bytes"
+        if e["system"] == hit["system"]:
+            # one of its blocks was altered in transit and refused: whatever the receiver reassembles from the blocks it
+            # accepted must still be the original message - or nothing
+            for m in [m for m in peer.messages if m["system"] == e["system"]]:
+                if m["body"] != e["body"]:
+                    sim.violation("C16.R2", f"{desc}: a block was altered on the line and refused, yet the receiver "
+                                  f"assembled a message of {len(m['body'])} bytes from the accepted blocks "
+                                  f"(blocks {[b.block for b in m['blocks']][:8]})", sig="C16.R2|outbound-reassembly-differs")
+            continue
         if e["ok"] is not True:
             sim.violation("C16.R2", f"{desc}: send_message returned {e['ok']} on a fault-free line", sig="C16.R2|send-false")
         want_n = max(1, (len(e["body"]) + 243) // 244)
